@@ -2,7 +2,8 @@
 From V.lib Require Import Base.
 From V.c08 Require Import C08Model.
 From V.c09 Require Import C09Model C09Spec.
-From V.c10 Require Import C10Model C10FileModel.
+From V.c01 Require Import C01Model C01FileModel.
+From V.c10 Require Import C10Model C10FileModel C10TreeModel.
 Require Import ExtrOcamlBasic.
 Separate Extraction
   C09Model.tables C09Model.stsc_box C09Model.ctts_box C09Model.stsz_box C09Model.chunk trak_state trak_in
@@ -11,4 +12,4 @@ Separate Extraction
   find_end_time find_end_time_pinned find_trak_end fill_loop fill_fuel
   update_chunk_offsets update_chunk_offsets_h shift_stco_pinned shift_delta write_upto_mdat_durs ranges_size write_mdat
   crop_mp4 crop_mp4_file crop_mp4_all find_sync_trak stbl_var_size size_without_mdat trak_h C08Model.mdat_mem C08Model.mdat_lazy
-  consistent.
+  consistent crop_tool crop_tool_sizes.
